@@ -137,7 +137,7 @@ pub struct Case {
     /// that no request sequence obtains a secret from it
     #[serde(default)]
     pub refused_setup: u8,
-    /// API level, simple factory only: the operator's policy filter is a carve-out in vlsd's
+    /// API level (simple or on-chain validator factory): the operator's policy filter is a carve-out in vlsd's
     /// `--policy-filter` order: the rules the revocation / signing guarantees are tagged with stay
     /// errors (`policy-revoke-*`, `policy-commitment-holder-not-revoked`, `policy-other`,
     /// `policy-commitment-spends-active-utxo`), every other `policy-*` rule is only logged
@@ -162,7 +162,7 @@ pub fn case_strat(max_ops: usize, valid_weight: u32, sign_weight: u32) -> BoxedS
         .prop_map(|(anchors, outbound, ops, proto, onchain, refused_setup, carve_out)| {
             let refused_setup = if proto.is_none() { refused_setup } else { 0 };
             let onchain = onchain && proto.is_none() && refused_setup == 0;
-            Case { anchors, outbound, ops, onchain, proto, refused_setup, carve_out: carve_out && proto.is_none() && refused_setup == 0 && !onchain }
+            Case { anchors, outbound, ops, onchain, proto, refused_setup, carve_out: carve_out && proto.is_none() && refused_setup == 0 }
         })
         .boxed()
 }
@@ -213,8 +213,11 @@ pub struct Machine {
 }
 
 pub fn carve_out_cfg() -> WorldCfg {
+    carve_out_of(WorldCfg::default_testnet())
+}
+
+pub fn carve_out_of(mut cfg: WorldCfg) -> WorldCfg {
     use lightning_signer::policy::filter::{FilterResult, FilterRule, PolicyFilter};
-    let mut cfg = WorldCfg::default_testnet();
     let mut f = PolicyFilter::default();
     f.merge(PolicyFilter {
         rules: vec![
@@ -285,7 +288,11 @@ pub fn setup_world_refused(anchors: bool, outbound: bool, kind: u8) -> Option<Ma
 
 /// As `setup_world`, with the on-chain validator factory and a confirmed funding transaction.
 pub fn setup_world_onchain(anchors: bool, outbound: bool) -> Machine {
-    let mut w = World::new_onchain(crate::chainpool::regtest_cfg());
+    setup_world_onchain_cfg(anchors, outbound, crate::chainpool::regtest_cfg())
+}
+
+pub fn setup_world_onchain_cfg(anchors: bool, outbound: bool, cfg: WorldCfg) -> Machine {
+    let mut w = World::new_onchain(cfg);
     let mut spec = ChanSpec::basic(1);
     spec.anchors = anchors;
     spec.outbound = outbound;
@@ -488,6 +495,7 @@ pub fn machine_for(case: &Case) -> Box<dyn HistoryMachine> {
             Some(m) => Box::new(m),
             None => Box::new(setup_world(case.anchors, case.outbound)),
         },
+        None if case.onchain && case.carve_out => Box::new(setup_world_onchain_cfg(case.anchors, case.outbound, carve_out_of(crate::chainpool::regtest_cfg()))),
         None if case.onchain => Box::new(setup_world_onchain(case.anchors, case.outbound)),
         None if case.carve_out => Box::new(setup_world_cfg(case.anchors, case.outbound, carve_out_cfg())),
         None => Box::new(setup_world(case.anchors, case.outbound)),
@@ -498,6 +506,7 @@ pub fn machine_for(case: &Case) -> Box<dyn HistoryMachine> {
 pub fn level_name(case: &Case) -> String {
     match case.proto {
         None if case.refused_setup != 0 => "api-refused-setup".to_string(),
+        None if case.onchain && case.carve_out => "api-onchain-carve-out-filter".to_string(),
         None if case.onchain => "api-onchain".to_string(),
         None if case.carve_out => "api-carve-out-filter".to_string(),
         None => "api".to_string(),
